@@ -812,14 +812,7 @@ func c04ReqLayouts(r *hx.Rng, target, without string, rules []c04Entry, flags st
 	return blkLayouts(r, backends, lines, namings, sample)
 }
 
-// one random layout: backends on the directive line / on `upstream` lines / mixed, lines in a random order
-func c04RandLayout(r *hx.Rng, nBackends int) string {
-	naming := hx.Pick(r, []string{"d", "u", "u"})
-	if nBackends > 1 && r.Chance(1, 3) {
-		naming = "m" + strconv.Itoa(1+r.Intn(nBackends-1))
-	}
-	return naming + ":" + strconv.FormatUint(r.U64()>>1, 10)
-}
+func c04RandLayout(r *hx.Rng, nBackends int) string { return blkRandLayout(r, nBackends) }
 
 var c04ReplPairs = [][2]string{{"a", "b"}, {"e", "ee"}, {"x", "x-p"}, {"text", "TEXT"}, {"keep", "k"}, {"1", "one two"}, {"/", "//"}, {"b", "a"}}
 
